@@ -30,6 +30,7 @@ type nilEngine struct {
 	busy     map[*ssa.Function]bool
 	contract map[*ssa.Function]bool
 	zenv     map[*ssa.Function]*core.ZEnv
+	estMemo  map[*ssa.Function]bool
 }
 
 // derefSites lists the instructions of fn that dereference the *Msg value v (directly or by handing it to a callee
@@ -371,13 +372,42 @@ func (ne *nilEngine) storesRespMsg(fn *ssa.Function, depth int, seen map[*ssa.Fu
 // non-nil message. Definitions: stores in this function and calls of functions that store the field; router.handleReq
 // and makeEmptyResp establish non-nil on every path (verified by R03a, which also runs for this property).
 func (ne *nilEngine) respMsgNonNil(ld *ssa.UnOp, at ssa.Instruction) string {
-	fn := ld.Parent()
-	establish := map[*ssa.Function]bool{}
-	for _, n := range []string{"(*router).handleReq", "makeEmptyResp"} {
-		if f := ne.c.Func("app/router", n); f != nil {
-			establish[f] = true
+	return ne.respNonNilAt(ld.Parent(), ld)
+}
+
+// establishesResp: on every return of f, rc.Response.Msg is non-nil. router.handleReq, makeEmptyResp and
+// handleServerReq (whose deferred closure fills in SERVFAIL) are verified by R03a; other functions are judged by the
+// same reaching-definition argument at each of their returns.
+func (ne *nilEngine) establishesResp(f *ssa.Function) bool {
+	if ne.estMemo == nil {
+		ne.estMemo = map[*ssa.Function]bool{}
+		for _, n := range []string{"(*router).handleReq", "makeEmptyResp", "(*router).handleServerReq"} {
+			if g := ne.c.Func("app/router", n); g != nil {
+				ne.estMemo[g] = true
+			}
 		}
 	}
+	if r, ok := ne.estMemo[f]; ok {
+		return r
+	}
+	ne.estMemo[f] = false // recursion guard
+	if f.Blocks == nil || !ne.storesRespMsg(f, 0, map[*ssa.Function]bool{}) {
+		return false
+	}
+	ok := true
+	for _, ret := range returnsOf(f) {
+		if ne.respNonNilAt(f, ret) != "" {
+			ok = false
+		}
+	}
+	ne.estMemo[f] = ok
+	return ok
+}
+
+// respNonNilAt: rc.Response.Msg is non-nil when control reaches `at` in fn.
+func (ne *nilEngine) respNonNilAt(fn *ssa.Function, at ssa.Instruction) string {
+	ld := at
+	establish := func(f *ssa.Function) bool { return ne.establishesResp(f) }
 	var defs []ssa.Instruction
 	core.EachInstr(fn, func(_ *ssa.BasicBlock, _ int, in ssa.Instruction) {
 		switch x := in.(type) {
@@ -399,7 +429,7 @@ func (ne *nilEngine) respMsgNonNil(ld *ssa.UnOp, at ssa.Instruction) string {
 				}
 				return
 			}
-			if establish[f] || ne.storesRespMsg(f, 0, map[*ssa.Function]bool{}) {
+			if establish(f) || ne.storesRespMsg(f, 0, map[*ssa.Function]bool{}) {
 				defs = append(defs, in)
 			}
 		}
@@ -426,7 +456,7 @@ func (ne *nilEngine) respMsgNonNil(ld *ssa.UnOp, at ssa.Instruction) string {
 				return "store at " + ne.c.Rel(x.Pos()) + ": " + why
 			}
 		case ssa.CallInstruction:
-			if f := core.StaticCallee(x); f == nil || !establish[f] {
+			if f := core.StaticCallee(x); f == nil || !establish(f) {
 				return "the call at " + ne.c.Rel(d.Pos()) + " may leave rc.Response.Msg nil"
 			}
 		}
